@@ -18,7 +18,8 @@ WEIGHTS = [("hostile", 3), ("multi", 3), ("event", 2), ("fastlat", 2), ("recorde
 def plan(tier, seed):
     cases = _sim.plan_profiles(tier, seed, WEIGHTS, 4000, 60000)
     n = 1500 if tier == "quick" else 40000
-    return cases + [{"mode": "live_walk", "seed": seed, "idx": i, "cfg": {"n": 1 + i % 3, "async": i % 4 == 3}, "len": 9 + i % 6} for i in range(n)]
+    cases += [{"mode": "live_walk", "seed": seed, "idx": i, "cfg": {"n": 1 + i % 3, "async": i % 4 == 3}, "len": 9 + i % 6} for i in range(n)]
+    return cases + [{"mode": "paper_walk", "seed": seed, "idx": i, "len": 40 + i % 50} for i in range(300 if tier == "quick" else 6000)]
 
 
 def build(desc):
@@ -40,6 +41,22 @@ def build(desc):
 
 
 def run(desc):
+    if desc.get("mode") == "paper_walk":
+        from .. import paperwalk
+
+        def observe(r, m, phase):
+            r.tr.framework = r.w.fw
+            observers.blotter_coherence(r.tr, m, "paper")
+
+        r = paperwalk.walk(desc, observe, n_strategies=1 + desc["idx"] % 2)
+        out = O.Out(PROPERTY)
+        out.violations += [dict(v, tags=dict(v["tags"], exec="Paper")) for v in r.tr.online if v["property"] == PROPERTY]
+        for k, v in r.tr.counters.items():
+            if k.startswith("rule_"):
+                out.c(k, v)
+        out.c("paper_walks")
+        out.d("c15paper:%d:%d" % (r.n_clients, min(len(r.orders), 10)))
+        return out.result()
     if desc.get("mode") == "live_walk":
         from . import c11
 
